@@ -16,6 +16,8 @@
    the release documented by compiler.Version "+go1.N.p" / README.md. *)
 From Coq Require Import List String Ascii Arith.
 From Verif Require Import Gen.C18_BuildEnv Model.C18_Build Proofs.C18_Build.
+From Verif Require Import Gen.C18_PostTweaks Model.C18_NameSpec Model.C18_Constraint Model.C18_ConstraintNF Model.C18_Text.
+From Verif Require Import Proofs.C18_P4_Name Proofs.C18_P4_Constraint Proofs.C18_P4_Header Proofs.C18_P4_Text.
 Import ListNotations.
 Local Open Scope string_scope.
 
@@ -189,3 +191,189 @@ Example C18_nonvacuous :
   import_pkg (default_cfg ["foo"] 99) "c18std/x" true fs =
     ROk ["a.go"; "b_js.go"; "c_wasm.go"; "d.go"] [] [] ["e.go"; "f.go"] ["g_linux.inc.js"].
 Proof. split; [unfold doc_N; apply Nat.leb_le; vm_compute; reflexivity | vm_compute; split; reflexivity]. Qed.
+
+(* ====================================================================== *)
+(* Phase 4                                                                *)
+(* ====================================================================== *)
+
+(* ---- (1) the file-name rule equals an independent suffix specification ---- *)
+
+(* name_tags (mirror of go/build goodOSArchFile: split on "_", drop "test", look at the
+   last two elements) = spec_name_tags (Model/C18_NameSpec.v: strip everything from the
+   first ".", strip one trailing "_test", then search the known GOOS x GOARCH table for a
+   suffix _GOOS_GOARCH, else the known table for a suffix _X), for EVERY file name.
+   Depends on the regenerated tables: no known name contains "_" or is empty. *)
+Theorem C18_name_rule_eq_spec : forall name : string, name_tags name = spec_name_tags name.
+Proof. exact name_rule_eq_spec. Qed.
+Print Assumptions C18_name_rule_eq_spec.
+
+(* the same against the TEXT of the go/build documentation, as a relation on strings
+   (name = stem[.ext], b = stem without one "_test", b = p_GOOS_GOARCH | p_X | neither;
+   the "_" before the element is the pre-Go1.4 exception: linux.go is unconstrained) *)
+Theorem C18_name_rule_iff_text_spec : forall name ts, name_requires name ts <-> name_tags name = ts.
+Proof. exact name_rule_iff_text_spec. Qed.
+Print Assumptions C18_name_rule_iff_text_spec.
+
+Theorem C18_good_name_eq_spec : forall e name, good_os_arch_file e name = spec_good_name e name.
+Proof. exact good_name_eq_spec. Qed.
+Print Assumptions C18_good_name_eq_spec.
+
+(* ---- (2) the constraint language ---------------------------------------- *)
+
+(* parse/print round trip: Expr.String then parseExpr gives back the same TREE for every
+   expression in the parser's normal form (left-nested && and ||, no double negation)
+   whose tags are proper tags.  For all such expressions, of any size. *)
+Theorem C18_parse_print_roundtrip : forall e, nf e = true -> tags_valid e = true ->
+  parse_expr (print e) = Some e.
+Proof. exact parse_print_roundtrip. Qed.
+Print Assumptions C18_parse_print_roundtrip.
+
+(* The full retraction statement is REFUTED by the faithful model (and by the real
+   go/build/constraint, replayed on every run): "!(!a)" parses, prints as "!!a", and
+   that is rejected (double negation). *)
+Definition C18_print_parse_retraction_full_statement : Prop :=
+  forall s x, parse_expr s = Some x -> parse_expr (print x) = Some x.
+Theorem C18_print_parse_retraction_refuted : ~ C18_print_parse_retraction_full_statement.
+Proof. exact print_parse_retraction_refuted. Qed.
+Print Assumptions C18_print_parse_retraction_refuted.
+
+(* without parentheses the parser does produce normal forms only *)
+Theorem C18_parse_nf_without_parens : forall ts e, np ts = true -> parse_toks ts = Some e -> nf e = true.
+Proof. exact parse_toks_nf_noparen. Qed.
+Print Assumptions C18_parse_nf_without_parens.
+
+(* go/build reads a legacy line through constraint.Parse (parsePlusBuildExpr); that
+   expression means exactly the documented reading: space = OR, comma = AND, ! = NOT,
+   a malformed term = the tag `ignore`, an empty line = `ignore` — for EVERY text and
+   EVERY tag assignment *)
+Theorem C18_plusbuild_equiv_gobuild : forall sat text,
+  eval sat (parse_plus_expr text) = pline_ok sat (plus_pline text).
+Proof. exact parse_plus_expr_equiv. Qed.
+Print Assumptions C18_plusbuild_equiv_gobuild.
+
+(* the conversion the toolchain performs the other way (constraint.PlusBuildLines: push
+   negations to the leaves, split into AND of ORs of ANDs of literals, merge when no OR
+   is left): whenever it succeeds, the lines (several lines = AND) mean the expression *)
+Theorem C18_gobuild_to_plusbuild_sound : forall x ls, plus_build_plines x = Some ls ->
+  forall sat, forallb (pline_ok sat) ls = eval sat x.
+Proof. exact plus_build_plines_sound. Qed.
+Print Assumptions C18_gobuild_to_plusbuild_sound.
+
+(* evaluation is monotone in the tags that occur positively and antitone in those that
+   occur negatively — and NOT monotone in general *)
+Theorem C18_eval_monotone_in_positive_tags : forall (s s' : string -> bool) e,
+  (forall t, In t (pos_tags e) -> s t = true -> s' t = true) ->
+  (forall t, In t (neg_tags e) -> s' t = true -> s t = true) ->
+  eval s e = true -> eval s' e = true.
+Proof. exact eval_monotone. Qed.
+Print Assumptions C18_eval_monotone_in_positive_tags.
+
+Theorem C18_eval_not_monotone_in_general : exists e s s',
+  (forall t, s t = true -> s' t = true) /\ eval s e = true /\ eval s' e = false.
+Proof. exact eval_not_monotone_in_general. Qed.
+Print Assumptions C18_eval_not_monotone_in_general.
+
+(* placement rules, on TEXT: the header of a file rendered from (//go:build x, +build
+   lines, detached?) is read back by go/build's header scanner + constraint parser as:
+   the //go:build line wins; otherwise the +build lines count only when a blank line
+   separates the comment block from the package clause; several lines = AND *)
+Theorem C18_should_build_text_render : forall sat gb plus detached,
+  header_valid gb plus ->
+  should_build_text sat (render_header gb plus detached) =
+  Some (match gb with
+        | Some x => eval sat x
+        | None => if detached then forallb (pline_ok sat) plus else true
+        end).
+Proof. exact should_build_text_of_render. Qed.
+Print Assumptions C18_should_build_text_render.
+
+(* hence the text-level classification of a rendered file is the structured one of
+   phase 1 (so C18_selected_iff / C18_user_tag_frame transfer to rendered text) *)
+Theorem C18_classify_text_render : forall e f imps,
+  header_valid (f_gobuild f) (f_plus f) ->
+  classify_text e (render_file f imps) = classify e f.
+Proof. exact classify_text_render. Qed.
+Print Assumptions C18_classify_text_render.
+
+(* C18_selected_iff restated on source TEXT (any text, well-formed or not): a file is
+   among GoFiles iff regular, selectable name, every tag of the SUFFIX SPECIFICATION of
+   its name is satisfied, go/build's header scanner + parser accept the text and the
+   constraint found holds, not documentation, no cgo — for every package that is not one
+   of the four tweaked ones (or comes from a virtual context).  [sat user std m] is the
+   environment characterised by C18_env_is_documented. *)
+Theorem C18_selected_iff_text : forall user std m v path fs f e0,
+  go_ctx (default_cfg user m) = Some e0 ->
+  NoDup (map t_name fs) -> In f fs ->
+  (v = true \/ ~ In path tweaked_paths) ->
+  t_loaded (import_text_with e0 std v path fs) ->
+  (In (t_name f) (t_go_files (import_text_with e0 std v path fs)) <->
+     t_isdir f = false /\ selectable_name (t_name f) /\
+     Forall (fun t => sat user std m t = true) (spec_name_tags (t_name f)) /\
+     should_build_text (sat user std m) (t_content f) = Some true /\
+     t_pkg f <> PkgDoc /\ t_cgo f = false).
+Proof. exact selected_iff_text_documented. Qed.
+Print Assumptions C18_selected_iff_text.
+
+(* a malformed //go:build line (or two of them) makes the file invalid — unless the name
+   already excludes it *)
+Theorem C18_bad_header_is_reported : forall e f,
+  t_isdir f = false -> hidden (t_name f) = false -> ext_of (t_name f) = ".go" ->
+  spec_good_name e (t_name f) = true ->
+  should_build_text (match_tag e) (t_content f) = None -> classify_text e f = CBad.
+Proof. exact classify_text_bad_header. Qed.
+Print Assumptions C18_bad_header_is_reported.
+
+(* ---- (3) GopherJS's own post-filtering ------------------------------------ *)
+
+(* applyPostloadTweaks (table regenerated from its switch): exactly the four documented
+   packages are touched, files are only ever removed, virtual contexts are never tweaked *)
+Theorem C18_postload_documented : forall go test,
+  postload false "runtime" go test = ([], test) /\
+  postload false "runtime/pprof" go test = ([], test) /\
+  postload false "sync" go test = (exclude go ["pool.go"], test) /\
+  postload false "syscall/js" go test = ([], []).
+Proof. exact postload_documented. Qed.
+Print Assumptions C18_postload_documented.
+
+Theorem C18_postload_other_paths_untouched : forall v p go test,
+  ~ In p tweaked_paths -> postload v p go test = (go, test).
+Proof. exact postload_other_paths. Qed.
+Print Assumptions C18_postload_other_paths_untouched.
+
+Theorem C18_postload_only_removes : forall v p go test f,
+  (In f (fst (postload v p go test)) -> In f go) /\ (In f (snd (postload v p go test)) -> In f test).
+Proof. exact postload_only_removes. Qed.
+Print Assumptions C18_postload_only_removes.
+
+Theorem C18_postload_sync_iff : forall go test f,
+  In f (fst (postload false "sync" go test)) <-> In f go /\ f <> "pool.go".
+Proof. exact postload_sync_iff. Qed.
+Print Assumptions C18_postload_sync_iff.
+
+Theorem C18_overlay_never_tweaked : forall p go test, postload true p go test = (go, test).
+Proof. exact postload_virtual_id. Qed.
+Print Assumptions C18_overlay_never_tweaked.
+
+(* updateImports: an import path is reported iff a REMAINING source file imports it *)
+Theorem C18_update_imports_iff : forall srcs fs p,
+  In p (update_imports srcs fs) <-> exists f, In f fs /\ In (t_name f) srcs /\ In p (t_imports f).
+Proof. exact update_imports_iff. Qed.
+Print Assumptions C18_update_imports_iff.
+
+(* Non-vacuity of phase 4: texts, one of them malformed, a tweaked package *)
+Example C18_p4_nonvacuous :
+  let mk n c := {| t_name := n; t_isdir := false; t_content := c; t_pkg := PkgSame; t_cgo := false; t_imports := ["io"] |} in
+  let nlc := String "010"%char "" in
+  let fs := [ mk "a.go" ("//go:build js && !linux" ++ nlc ++ nlc ++ "package p" ++ nlc);
+              mk "b_linux_amd64.go" ("package p" ++ nlc);
+              mk "c.go" ("// +build linux" ++ nlc ++ "package p" ++ nlc);
+              mk "d.go" ("// +build linux" ++ nlc ++ nlc ++ "package p" ++ nlc);
+              mk "pool.go" ("package p" ++ nlc) ] in
+  import_text (default_cfg [] 99) false "sync" true fs =
+    TOk ["a.go"; "c.go"] [] [] ["b_linux_amd64.go"; "d.go"] [] ["io"] [] [] /\
+  import_text (default_cfg [] 99) true "sync" true fs =
+    TOk ["a.go"; "c.go"; "pool.go"] [] [] ["b_linux_amd64.go"; "d.go"] [] ["io"] [] [] /\
+  import_text (default_cfg [] 99) false "." false (mk "e.go" ("//go:build (js" ++ nlc ++ "package p" ++ nlc) :: fs) = TBad /\
+  parse_expr "a && (b || !c)" = Some (And (Tag "a") (Or (Tag "b") (Not (Tag "c")))) /\
+  header_valid (Some (And (Tag "a") (Or (Tag "b") (Not (Tag "c"))))) [[[(false, "x"); (true, "y")]; [(false, "z")]]].
+Proof. vm_compute. repeat split; reflexivity. Qed.
